@@ -445,6 +445,8 @@ type engineEnv struct {
 	spy   *spyVault
 	ws    *coercion.Workstream
 	dir   string
+
+	startCancel int
 }
 
 func newRegistry(tr *tracer, sc *scripts) *registry.Register {
@@ -549,7 +551,19 @@ func (e *engineEnv) startAndWait(p *workflow.Plan, planNo int, maxWait, settle t
 	ctx := context.Background()
 	res := &runResult{}
 	e.tr.add(Event{L: "api", Tag: "start", Plan: planNo, Phase: "call"})
-	err := e.ws.Start(ctx, p.ID)
+	// Start documents that cancelling its context does not stop execution: cancel it after Start
+	// returned (immediately or a little later) in a third of the cases.
+	sctx, scancel := context.WithCancel(ctx)
+	err := e.ws.Start(sctx, p.ID)
+	switch e.startCancel % 3 {
+	case 1:
+		scancel()
+	case 2:
+		go func(d int) { time.Sleep(time.Duration(d) * time.Microsecond); scancel() }(50 + 37*(e.startCancel%11))
+	default:
+		defer scancel()
+	}
+	e.startCancel++
 	ev := Event{L: "api", Tag: "start", Plan: planNo, Phase: "ret"}
 	if err != nil {
 		ev.Err = err.Error()
